@@ -18,45 +18,66 @@ def run(ctx):
     # fixed-schedule sweep on the implementation (every n in a range): exactly n iterations
     sweep = list(range(1, ctx.scale(41, 400)))
     runs, results = sb.run_and_replay(ctx, cfgs)
-    for r in runs:
+
+    def check_schedule(r, tag="", resumed_from=None):
         cfg = r.cfg
         sk = cfg["sample_kwargs"]
-        key = "cfg:" + repr(sorted(sk.items())) + f":s={cfg['s']}:N={cfg['N']}"
+        key = tag + "cfg:" + repr(sorted(sk.items())) + f":s={cfg['s']}:N={cfg['N']}"
         if r.error is not None:
             what = "run did not finish" if r.error[0] == "watchdog" else f"run raised {r.error[0]}: {r.error[1][:200]}"
             ctx.violation(f"raises-or-spins:{r.error[0]}:{key}", what, {"cfg": cfg, "error": r.error})
-            continue
+            return
         betas = [float(b) for b in r.history.beta]
         if ctx.samples.__len__() < 4:
             ctx.sample({"cfg": {k: v for k, v in cfg.items()}, "betas": betas})
         prev = 0.0
         for b in betas:
             if not (prev < b <= 1.0):
-                ctx.violation(f"not-increasing-in-(0,1]:{key}", f"temperatures {betas}", {"cfg": cfg, "betas": betas})
+                ctx.violation(f"not-increasing-in-(0,1]:{key}", f"temperatures {betas}", {"cfg": cfg, "betas": betas, "resumed_from_iteration": resumed_from})
                 break
             prev = b
         cap = sk.get("max_n_steps")
         if betas and betas[-1] != 1.0 and not (cap is not None and len(betas) >= cap):
-            ctx.violation(f"does-not-end-at-1:{key}", f"last temperature {betas[-1]}", {"cfg": cfg, "betas": betas})
+            ctx.violation(f"does-not-end-at-1:{key}", f"last temperature {betas[-1]}", {"cfg": cfg, "betas": betas, "resumed_from_iteration": resumed_from})
         if cap is not None and len(betas) > cap:
-            ctx.violation(f"cap-exceeded:{key}", f"{len(betas)} iterations > max_n_steps={cap}", {"cfg": cfg, "betas": betas})
+            ctx.violation(f"cap-exceeded:{key}", f"{len(betas)} iterations > max_n_steps={cap}", {"cfg": cfg, "betas": betas, "resumed_from_iteration": resumed_from})
         if not sk.get("adaptive", True) and cap is None and len(betas) != sk["n_steps"]:
             ctx.violation(f"fixed-steps:n={sk['n_steps']}", f"fixed schedule of {sk['n_steps']} steps ran {len(betas)} iterations",
-                          {"cfg": cfg, "betas": betas})
+                          {"cfg": cfg, "betas": betas, "resumed_from_iteration": resumed_from})
         ms = sk.get("min_step")
         if ms is not None and sk.get("adaptive", True):
             p = 0.0
             for b in betas:
                 if b != 1.0 and b < p + ms - 1e-12:
-                    ctx.violation(f"min-step:{key}", f"step {p}->{b} smaller than min_step={ms}", {"cfg": cfg, "betas": betas})
+                    ctx.violation(f"min-step:{key}", f"step {p}->{b} smaller than min_step={ms}", {"cfg": cfg, "betas": betas, "resumed_from_iteration": resumed_from})
                     break
                 p = b
         # kernel invocations = iterations (+1 for the final enlargement)
         nm = sum(1 for e in r.events if e[0] == "mutate")
         nf = sk.get("n_final_samples")
         want = len(betas) + (1 if (nf is not None and nf != cfg["N"]) else 0)
-        if nm != want:
+        if nm != want and resumed_from is None:
             ctx.violation(f"kernel-invocations:{key}", f"{nm} kernel invocations for {len(betas)} iterations", {"cfg": cfg})
+
+    for r in runs:
+        check_schedule(r)
+    # the same predicates on RESUMED runs: a run continued from a mid-run payload, and one continued from the last payload of a run
+    # that had already stopped (at temperature 1 or at its step cap), still has an increasing schedule, honours the cap and the floor
+    nres = 0
+    for r in [r for r in runs if r.error is None and any(p["bytes"] is not None for p in r.payloads)][: ctx.scale(14, 80)]:
+        picks = {len(r.payloads) - 1, ctx.rng.randrange(len(r.payloads))}
+        for pi in sorted(picks):
+            pl = r.payloads[pi]
+            r2 = sr.do_run(r.cfg, resume_from=pl["bytes"], vid0=10000)
+            nres += 1
+            last = pi == len(r.payloads) - 1
+            ctx.count(("resumed", r.cfg["seed"], pl["iteration"]), True, kind="resumed/" + ("from-the-last-payload" if last else "mid-run"))
+            check_schedule(r2, tag="resumed:" + ("last:" if last else ""), resumed_from=pl["iteration"])
+            if r2.error is None and len(r2.history.beta) != len(r.history.beta):
+                ctx.violation("resumed-iterations:" + ("last" if last else "mid"), f"resumed from iteration {pl['iteration']}: {len(r2.history.beta)} iterations in all, the "
+                              f"uninterrupted run took {len(r.history.beta)}", {"cfg": r.cfg, "resumed_from_iteration": pl["iteration"],
+                                                                               "betas": [float(b) for b in r2.history.beta]})
+    ctx.extra["resumed_runs_checked"] = nres
     # direct sweep: fixed schedule of n steps for every n (cheap populations)
     bad = []
     for nsteps in sweep:
